@@ -164,12 +164,13 @@ refuters = {p.name: refute_search for p in proofs}
 # (std::unordered_map copy construction and range insert per the C++ standard: insert does not overwrite).
 TU_RES = ("tu_resource", '#include "%s/sdk/src/resource/resource.cc"\n' % R.core.REPO)
 RES_PRE = r"""
-typedef struct xc_slotmap { int present; unsigned long val; } xc_slotmap;      /* an attribute map seen at the arbitrary key K: bound or not, to which value */
+typedef struct xc_slotmap { int present; unsigned long val; unsigned long others; } xc_slotmap;      /* an attribute map seen at the arbitrary key K: bound or not, to which value; plus the number of other keys */
 typedef struct xc_url { unsigned long id; unsigned long len; } xc_url;           /* a schema URL: its identity and its length */
 static void xc_havoc_ghosts(void) { }
 /* range insert [begin, end) of src into dst: a key that dst already holds keeps its value (insert never overwrites) */
-static void xc_map_insert_all(xc_slotmap *dst, const xc_slotmap *src) { if (!dst->present && src->present) { dst->present = 1; dst->val = src->val; } }
-#define WF_SM(m) ((m).present == 0 || (m).present == 1)
+static void xc_map_insert_all(xc_slotmap *dst, const xc_slotmap *src) { if (!dst->present && src->present) { dst->present = 1; dst->val = src->val; }
+  unsigned long n; __CPROVER_assume(n >= dst->others && n >= src->others && n <= dst->others + src->others); dst->others = n; }      /* the other keys: their union */
+#define WF_SM(m) (((m).present == 0 || (m).present == 1) && (m).others <= 100000)
 """
 
 
@@ -202,6 +203,9 @@ def _configure_res(cfg):
         src = a0["inner"][0]["inner"][0]
         return "xc_map_insert_all(&(%s), &(%s))" % (recv, em.expr(src))
     cfg.ext_methods["std::unordered_map::insert"] = _insert
+    cfg.ext_methods["std::unordered_map::reserve"] = lambda em, recv, args, n: "(void)0"
+    cfg.ext_methods["std::unordered_map::size"] = lambda em, recv, args, n: "((%s).others + (unsigned long)(%s).present)" % (recv, recv)
+    cfg.ext_methods["std::unordered_map::empty"] = lambda em, recv, args, n: "((%s).others + (unsigned long)(%s).present == 0)" % (recv, recv)
 
 
 contracts_res = {
